@@ -8,9 +8,11 @@ tvars == <<rvars, l, viol, noted>>
 Trace == ndJsonDeserialize("trace.ndjson")
 \* a clause is reported once per trace (the first event that violates it)
 New(fs)  == fs \ noted
-Note(fs) == IF New(fs) = {} THEN viol ELSE Append(viol, [l |-> l, c |-> New(fs)])
+\* (at most MaxViol violating events are kept: a change that breaks every case must not make validation quadratic)
+MaxViol == 3000
+Note(fs) == IF New(fs) = {} \/ Len(viol) >= MaxViol THEN viol ELSE Append(viol, [l |-> l, c |-> New(fs)])
 Rec(fs)      == viol' = Note(fs) /\ noted' = noted \cup fs
-RecBegin(fs) == viol' = (IF fs = {} THEN viol ELSE Append(viol, [l |-> l, c |-> fs])) /\ noted' = fs
+RecBegin(fs) == viol' = (IF fs = {} \/ Len(viol) >= MaxViol THEN viol ELSE Append(viol, [l |-> l, c |-> fs])) /\ noted' = fs
 
 TInit == l = 1 /\ viol = <<>> /\ noted = {} /\ RInit
 
